@@ -44,12 +44,14 @@ func AcquireDirLock(dir string, fs vfs.FS) (*DirLock, error) {
 	if !ok {
 		return nil, fmt.Errorf("dirlock: file %q does not expose descriptor", lockPath)
 	}
+	verifYield("dirlock.acquire.opened")
 	if err := syscall.Flock(int(fd), syscall.LOCK_EX|syscall.LOCK_NB); err != nil {
 		if errors.Is(err, syscall.EWOULDBLOCK) {
 			return nil, fmt.Errorf("dirlock: directory %q already in use", dir)
 		}
 		return nil, err
 	}
+	verifYield("dirlock.acquire.locked")
 	// Release unlinks LOCK while it still holds the flock. If the path no longer
 	// names the file we just locked, that file was released and unlinked between
 	// our open and our flock: locking it excludes nobody.
@@ -82,6 +84,7 @@ func (l *DirLock) Release() error {
 	if err := fs.Remove(l.path); err != nil && !errors.Is(err, os.ErrNotExist) {
 		firstErr = err
 	}
+	verifYield("dirlock.release.1")
 	if fd, ok := vfs.FileFD(l.file); ok {
 		if err := syscall.Flock(int(fd), syscall.LOCK_UN); err != nil && firstErr == nil {
 			firstErr = err
@@ -89,6 +92,7 @@ func (l *DirLock) Release() error {
 	} else if firstErr == nil {
 		firstErr = fmt.Errorf("dirlock: file %q does not expose descriptor", l.path)
 	}
+	verifYield("dirlock.release.2")
 	if err := l.file.Close(); err != nil && firstErr == nil {
 		firstErr = err
 	}
